@@ -32,8 +32,10 @@ deriving Repr
 def cfgParam (f : String) : String :=
   if f = "default_strategy" then "strategy" else if f = "class_strategies" then "strategies" else f
 
-def Site.ruleOk (s : Site) : Rule → Bool
-  | .sameName => s.options.all fun p => s.keywords.contains (p, p)
+/-- `alias`: options that travel under a computed local name (the decorator computes `effective_strategy` and
+    `op_name` first); empty everywhere else -/
+def Site.ruleOk (s : Site) (alias : List (String × String)) : Rule → Bool
+  | .sameName => s.options.all fun p => s.keywords.contains (p, (alias.lookup p).getD p)
   | .selfAttr => s.options.all fun p => s.keywords.contains (p, "self." ++ p)
   | .configAttr => s.options.all fun p => s.keywords.contains (cfgParam p, "config." ++ p)
   | .positionalAfterSelf =>
@@ -51,10 +53,11 @@ structure Expect where
   callee : String
   rule : Rule
   cover : Bool
+  alias : List (String × String)
 deriving Repr
 
 def Site.ok (e : Expect) (s : Site) : Bool :=
-  s.name == e.name && s.callee == e.callee && s.ruleOk e.rule && s.coversCallee e.cover
+  s.name == e.name && s.callee == e.callee && s.ruleOk e.alias e.rule && s.coversCallee e.cover
 
 /-- every expected site was found and is well-forwarding -/
 def allOk (es : List Expect) (ss : List Site) : Bool :=
